@@ -27,7 +27,6 @@ namespace Sql
 
 inductive Err where
   | value | index | type | attr | assert | zero
-  | sqlError      -- `Exception(str(e))` re-raised from a failing sqlite3 statement
   | unmodelled    -- outside the modelled domain (Time.Interval > 60 for interval types <= 1)
 deriving DecidableEq, Repr
 
@@ -201,8 +200,8 @@ def extractRunPeriodRows (s e : Option TimeRow) : Except Err (Option Period × F
     let (freq, ts, mps) ← freqOf s
     let leap := leapOfYear e.year
     if freq = .annual then pure (none, freq, mult) else
-    let st ← dtMake s.month (if freq = .monthly then 1 else s.day) 0 false
-    let en ← dtMake e.month e.day 0 false
+    let st ← dtMake s.month (if freq = .monthly then 1 else s.day) 0 leap
+    let en ← dtMake e.month e.day 0 leap
     let p ← mkPeriod st.month st.day st.hour en.month en.day (endHourOf mps) ts leap
     pure (some p, freq, mult)
   | _, _ => .error .type
@@ -213,13 +212,13 @@ def extractRunPeriod (time : List TimeRow) (st en : Nat) : Except Err (Option Pe
   extractRunPeriodRows (findTime time st) (findTime time en)
 
 /-- The start `(month, day)` of a run period in `_extract_all_run_period`. -/
-def mkStart (monthly : Bool) (r : TimeRow) : Except Err (Nat × Nat) := do
-  let d ← dtMake r.month (if monthly then 1 else r.day) 0 false
+def mkStart (monthly : Bool) (leap : Bool) (r : TimeRow) : Except Err (Nat × Nat) := do
+  let d ← dtMake r.month (if monthly then 1 else r.day) 0 leap
   pure (d.month, d.day)
 
 /-- Close a run period at `Time` row `e`. -/
 def closePeriod (st : Nat × Nat) (e : TimeRow) (ts : Nat) (leap : Bool) : Except Err Period := do
-  let d ← dtMake e.month e.day 0 false
+  let d ← dtMake e.month e.day 0 leap
   mkPeriod st.1 st.2 0 d.month d.day (endHourOf (60 / ts)) ts leap
 
 /-- The loop of `_extract_all_run_period` over the remaining `Time` rows. -/
@@ -231,7 +230,7 @@ def allGo (monthly : Bool) (ts : Nat) (leap : Bool) :
   | st, env, prev, r :: rs =>
     if r.env != env then do
       let p ← closePeriod st prev ts leap
-      let st' ← mkStart monthly r
+      let st' ← mkStart monthly leap r
       let ps ← allGo monthly ts leap st' r.env r rs
       pure (p :: ps)
     else allGo monthly ts leap st env r rs
@@ -244,7 +243,7 @@ def allRunPeriods (time : List TimeRow) (monthly : Bool) (ts : Nat) (leap : Bool
   | [] => .error .index
   | r0 :: rest =>
     if ts = 0 then .error .zero else do
-    let st ← mkStart monthly r0
+    let st ← mkStart monthly leap r0
     allGo monthly ts leap st r0.env r0 rest
 
 /-! ## 3. Queries -/
@@ -393,24 +392,31 @@ deriving Repr
 def metaOf (surface : Bool) (r : DictRow) : String × String × String :=
   (r.name, if surface then "Surface" else r.group, r.key)
 
-/-- Build the collections from headers `(period, metadata)` and value lists (`zip` truncates). -/
-def buildColls {α : Type} (freq : Freq) (dtype : DType) (unit : String)
-    (headers : List (Period × (String × String × String))) (vals : List (List α)) :
+/-- What a `Header` is built from: run period, data type, unit, metadata triple. -/
+structure Hdr where
+  period : Period
+  dtype : DType
+  unit : String
+  labels : String × String × String
+
+/-- Build the collections from headers and value lists (`zip` truncates). -/
+def buildColls {α : Type} (freq : Freq) (headers : List Hdr) (vals : List (List α)) :
     Except Err (List (Coll α)) :=
   (headers.zip vals).mapM fun (h, v) =>
-    let (p, m) := h
+    let p := h.period
+    let m := h.labels
     match freq with
     | .steps _ =>
       -- HourlyContinuousCollection: start hour 0, end hour 23, len(values) == len(period)
       if p.stHour ≠ 0 ∨ p.endHour ≠ 23 then .error .assert
       else if v.length ≠ p.len then .error .assert
-      else .ok ⟨.hourly, dtype, unit, p, m.1, m.2.1, m.2.2, v, []⟩
+      else .ok ⟨.hourly, h.dtype, h.unit, p, m.1, m.2.1, m.2.2, v, []⟩
     | .daily =>
       if v.length ≠ p.doys.length ∨ v.length = 0 then .error .assert
-      else .ok ⟨.daily, dtype, unit, p, m.1, m.2.1, m.2.2, v, p.doys⟩
+      else .ok ⟨.daily, h.dtype, h.unit, p, m.1, m.2.1, m.2.2, v, p.doys⟩
     | .monthly =>
       if v.length ≠ p.months.length ∨ v.length = 0 then .error .assert
-      else .ok ⟨.monthly, dtype, unit, p, m.1, m.2.1, m.2.2, v, p.months⟩
+      else .ok ⟨.monthly, h.dtype, h.unit, p, m.1, m.2.1, m.2.2, v, p.months⟩
     | .annual => .error .assert   -- not reached: annual data returns before
 
 /-- Number of values per key of one run period, by frequency (`chunks`). -/
@@ -420,42 +426,57 @@ def chunkOf (freq : Freq) (p : Period) : Nat :=
   | .daily => p.doys.length
   | _ => p.len
 
-/-- `data_collections_by_output_name(output_name)`; `conv` is the J -> kWh conversion of a value. -/
+/-- Data type and unit of one header row (`J` is relabelled `kWh`). -/
+def typeUnitOf (r : DictRow) : DType × String := dataTypeFromUnit (relabel r.units) r.name
+
+/-- `[tuple(v / 3600000. …) if kwh else values for kwh, values in zip(to_kwh, all_values)]`. -/
+def convCols {α : Type} (conv : α → α) (flags : List Bool) (cols : List (List α)) : List (List α) :=
+  (flags.zip cols).map fun (f, c) => if f then c.map conv else c
+
+/-- `to_kwh` flags of the header rows, repeated once per run period. -/
+def kwhFlags (hdr : List DictRow) (nPeriods : Nat) : List Bool :=
+  (List.replicate nPeriods (hdr.map fun r => (typeUnitOf r).2 == "kWh")).flatten
+
+/-- `data_collections_by_output_name(output_name)`; `conv` is the J -> kWh conversion of a value.
+    Every header row keeps its own data type and unit; only the columns whose unit became `kWh` are
+    converted; annual data of several environments gives one value per run period and key. -/
 def queryAll {α : Type} (conv : α → α) (db : DB α) (q : NameQuery) : Except Err (Result α) :=
   let hdr := headerRows db.dict q
   match hdr with
   | [] => .ok (.colls [])
-  | h0 :: _ => do
+  | _ :: _ => do
     let data := selectData db.data (hdr.map (·.idx))
     let (stT, enT) ← match data.head?, data.getLast? with
       | some a, some b => pure (a.time, b.time)
       | _, _ => .error .index
     let (rp, freq, mult) ← extractRunPeriod db.time stT enT
     -- several run periods: rebuild all of them from the whole Time table
-    let periods : List Period ⊕ Option Period ← if mult then
-        match rp with
-        | none => .error .attr
-        | some p => do
-          let ps ← allRunPeriods db.time (freq == .monthly) p.timestep p.leap
-          pure (.inl ps)
-      else pure (.inr rp)
-    let (dtype, units) := dataTypeFromUnit (relabel h0.units) h0.name
-    let metas := hdr.map (metaOf q.surface)
-    let headers : List (Period × (String × String × String)) :=
+    let periods : List Period ⊕ Option Period ← match mult, rp with
+      | true, some p => do
+        let ps ← allRunPeriods db.time (freq == .monthly) p.timestep p.leap
+        pure (.inl ps)
+      | _, _ => pure (.inr rp)
+    let hdrOf := fun (p : Period) => hdr.map fun r =>
+      (⟨p, (typeUnitOf r).1, (typeUnitOf r).2, metaOf q.surface r⟩ : Hdr)
+    let headers : List Hdr :=
       if freq = .annual then []
       else match periods with
-        | .inl ps => ps.flatMap fun p => metas.map fun m => (p, m)
-        | .inr (some p) => metas.map fun m => (p, m)
+        | .inl ps => ps.flatMap hdrOf
+        | .inr (some p) => hdrOf p
         | .inr none => []
-    let vals0 := data.map (·.value)
-    let vals := if units = "kWh" then vals0.map conv else vals0
-    let allValues ← match periods with
-      | .inl ps => partitionChunks vals (ps.map (chunkOf freq))
-      | .inr _ => partition vals hdr.length
+    let vals := data.map (·.value)
+    let (raw, flags) ← match periods with
+      | .inl ps => do
+        let c ← partitionChunks vals (ps.map (chunkOf freq))
+        pure (c, kwhFlags hdr ps.length)
+      | .inr _ => do
+        let c ← partition vals hdr.length
+        pure (c, kwhFlags hdr 1)
+    let allValues := convCols conv flags raw
     if freq = .annual then
-      pure (.annual (allValues.filterMap (·.head?)))
+      pure (.annual (interleave allValues))
     else do
-      let cs ← buildColls freq dtype units headers allValues
+      let cs ← buildColls freq headers allValues
       pure (.colls cs)
 
 /-- The rows of the JOIN query of the run-period method (no ORDER BY: scan order of `ReportData`). -/
@@ -465,32 +486,31 @@ def selectDataEnv {α : Type} (db : DB α) (rel : List Nat) (env : Nat) : List (
      | some t => t.env == env
      | none => false)
 
-/-- `data_collections_by_output_name_run_period(output_name, run_period_index)`.
-    With exactly one header row the code formats `IN (7,)`, which sqlite3 rejects. -/
+/-- `data_collections_by_output_name_run_period(output_name, run_period_index)` (one output name:
+    unit and data type of the first header row; annual data gives one value per key). -/
 def queryRunPeriod {α : Type} (conv : α → α) (db : DB α) (name : String) (env : Nat) :
     Except Err (Result α) :=
   let q := NameQuery.single name
   let hdr := headerRows db.dict q
   match hdr with
   | [] => .ok (.colls [])
-  | [_] => .error .sqlError
   | h0 :: _ => do
     let data := selectDataEnv db (hdr.map (·.idx)) env
     let (stT, enT) ← match data.head?, data.getLast? with
       | some a, some b => pure (a.time, b.time)
       | _, _ => .error .index
     let (rp, freq, _) ← extractRunPeriod db.time stT enT
-    let (dtype, units) := dataTypeFromUnit (relabel h0.units) h0.name
-    -- `Header(data_type, units, run_period, m_data)` asserts that `run_period` is an AnalysisPeriod:
-    -- annual data (`run_period is None`) never reaches the `return all_values` branch
-    match rp with
-    | none => .error .assert
-    | some p => do
-      let headers := hdr.map fun r => (p, metaOf q.surface r)
-      let vals0 := data.map (·.value)
-      let vals := if units = "kWh" then vals0.map conv else vals0
-      let allValues ← partition vals hdr.length
-      let cs ← buildColls freq dtype units headers allValues
+    let (dtype, units) := typeUnitOf h0
+    let headers : List Hdr := match rp with
+      | some p => hdr.map fun r => ⟨p, dtype, units, metaOf q.surface r⟩
+      | none => []
+    let vals0 := data.map (·.value)
+    let vals := if units = "kWh" then vals0.map conv else vals0
+    let allValues ← partition vals hdr.length
+    if freq = .annual then
+      pure (.annual (allValues.filterMap (·.head?)))
+    else do
+      let cs ← buildColls freq headers allValues
       pure (.colls cs)
 
 /-- `values_by_output_name(output_name)`: the flat value list in time order, unconverted. -/
